@@ -2,6 +2,7 @@ package pnum
 
 import (
 	"fmt"
+	"strings"
 
 	"github.com/formancehq/ledger/verifh/gen"
 )
@@ -42,6 +43,18 @@ type spaceDesc struct {
 }
 
 func coin(n int64) gen.Mon { return gen.LitMon(assetMain, n) }
+
+func amountMenuText(as []gen.Amount) string {
+	out := make([]string, len(as))
+	for i, a := range as {
+		if a.All {
+			out[i] = "[" + a.Asset + " *]"
+		} else {
+			out[i] = a.Mon.String()
+		}
+	}
+	return "{" + strings.Join(out, ", ") + "}"
+}
 
 func concatSrc(xs ...[]*gen.Src) []*gen.Src {
 	var out []*gen.Src
@@ -230,7 +243,11 @@ func numscriptSpaceInto(thorough bool, out *menus) spaceDesc {
 	}
 
 	// ---- statement menu for two-statement programs ---------------------------
-	tAmts := []gen.Amount{{Mon: coin(1)}, {Mon: coin(7)}, {All: true, Asset: assetMain}}
+	// $bal = balance(@a, COIN) is resolved BEFORE the script runs: as the amount of a second
+	// statement it must still be the initial balance of @a, whatever the first statement did
+	// to @a (credited it, saved it, drained it). Every (credit @a ; send $bal ...) and
+	// (save ... from @a ; send $bal ... to @a) order is in the pair stage of both tiers.
+	tAmts := []gen.Amount{{Mon: coin(1)}, {Mon: coin(7)}, {All: true, Asset: assetMain}, {Mon: gen.VarMon("bal")}}
 	tSrc := []*gen.Src{
 		{K: gen.SAcc, Acc: "@a"}, {K: gen.SAcc, Acc: "@world"}, {K: gen.SOver, Acc: "@b", Bound: coin(2)},
 		{K: gen.SSeq, Sub: []*gen.Src{{K: gen.SAcc, Acc: "@a"}, {K: gen.SAcc, Acc: "@b"}}},
@@ -240,7 +257,7 @@ func numscriptSpaceInto(thorough bool, out *menus) spaceDesc {
 		{K: gen.DSeq, Max: []gen.Mon{coin(1)}, To: []gen.KD{{D: &gen.Dst{K: gen.DAcc, Acc: "@a"}}}, Rem: gen.KD{Kept: true}},
 	}
 	if thorough {
-		tAmts = append(tAmts, gen.Amount{Mon: coin(100)}, gen.Amount{Mon: gen.VarMon("bal")})
+		tAmts = append(tAmts, gen.Amount{Mon: coin(100)})
 		tSrc = append(tSrc, &gen.Src{K: gen.SAcc, Acc: "$acc"}, &gen.Src{K: gen.SUnb, Acc: "@a"},
 			&gen.Src{K: gen.SMax, Max: coin(5), Sub: []*gen.Src{{K: gen.SAcc, Acc: "@b"}}},
 			&gen.Src{K: gen.SAllot, Por: []string{"1/2", "remaining"}, Sub: []*gen.Src{{K: gen.SAcc, Acc: "@a"}, {K: gen.SAcc, Acc: "@b"}}})
@@ -311,8 +328,8 @@ func numscriptSpaceInto(thorough bool, out *menus) spaceDesc {
 			{"E7: 1 send, every depth-2 source of the quick menus x reduced depth<=1 destinations x amounts {1,7,*}", yieldProduct(cat, []gen.Amount{{Mon: coin(1)}, {Mon: coin(7)}, {All: true, Asset: assetMain}}, concatSrc(q.S2, q.SA2), concatDst(DR, D1R))},
 		}
 	}
-	rule = fmt.Sprintf("grammar enumeration (no sampling) of NumScript.g4 programs: leaf sources = {@a,@b,$acc} x {plain, overdraft up to %v, unbounded} + @world (%d); depth-1 = max M from leaf (M in %v) and in-order {leaf leaf} (%d); depth-2 over a reduced leaf menu of %d (%d sources); source allotments (%d flat, %d nested); destinations: %d leaves (+kept), %d in-order, %d allotments, %d depth-2; portions %v; amounts {0,1,7,100,*} plus variable amounts; statement menu of %d (sends, save, set_tx_meta, set_account_meta, fail; second asset USD/2) and all its ordered pairs; every program x every assignment of its variables from the catalog menus (acc=%v mon=%v p=%v, meta(@m,..), balance(@a,COIN)) x every balance vector over {-3,-1,0,1,5,100} for each account in source/save/balance() position",
-		bounds, len(L), maxes, len(S1), len(R), len(S2), len(SA1), len(SA2), len(DL), len(D1seq), len(D1all), len(D2), porMenuFull, len(T),
+	rule = fmt.Sprintf("grammar enumeration (no sampling) of NumScript.g4 programs: leaf sources = {@a,@b,$acc} x {plain, overdraft up to %v, unbounded} + @world (%d); depth-1 = max M from leaf (M in %v) and in-order {leaf leaf} (%d); depth-2 over a reduced leaf menu of %d (%d sources); source allotments (%d flat, %d nested); destinations: %d leaves (+kept), %d in-order, %d allotments, %d depth-2; portions %v; amounts {0,1,7,100,*} plus variable amounts; statement menu of %d (sends with amounts %s over %d sources x %d destinations, save, set_tx_meta, set_account_meta, fail; second asset USD/2) and all its ordered pairs (so every `credit X ; send $bal`, `save from X ; credit X` order with $bal = balance(@a, COIN)); every program x every assignment of its variables from the catalog menus (acc=%v mon=%v p=%v, meta(@m,..), balance(@a,COIN)) x every balance vector over {-3,-1,0,1,5,100} for each account in source/save/balance() position",
+		bounds, len(L), maxes, len(S1), len(R), len(S2), len(SA1), len(SA2), len(DL), len(D1seq), len(D1all), len(D2), porMenuFull, len(T), amountMenuText(tAmts), len(tSrc), len(tDst),
 		cat["acc"].Values, cat["mon"].Values, cat["p"].Values)
 	return spaceDesc{Stages: st, Rule: rule}
 }
